@@ -263,6 +263,15 @@ def readPieces (f : Bytes) (pos len : Nat) : Bytes × Nat × Bool :=
   -- every piece after a short one is short too and delivers nothing more
   (got, pos + got.length, decide (got.length < len))
 
+/-- the value the scan assigns to one chunk, as a function of what could be read: `validate_chunk` on the bytes hashed,
+overridden by -1 when a read came up short -/
+def scanValue (H : HashFn) (hdr : Hdr) (ch : Chunk) (got : Bytes) (truncated : Bool) : Int :=
+  match H hdr.chunkHashType got with
+  | none => -1
+  | some d =>
+    let d := if ch.compLen = 0 then zeros d.length else d
+    if truncated then -1 else if d = ch.digest then 1 else -1
+
 /-- the chunk loop of `validate_checksums` -/
 def scanLoop (H : HashFn) (f : Bytes) (hdr : Hdr) (useFull : Bool) :
     List Chunk → Nat → Nat → Option Bytes → List Int → Bool → (Nat × Option Bytes × List Int × Bool)
@@ -274,12 +283,7 @@ def scanLoop (H : HashFn) (f : Bytes) (hdr : Hdr) (useFull : Bool) :
     else
       let (got, pos', truncated) := readPieces f pos ch.compLen
       let full := if useFull then hashUpd full got else full
-      let v : Int :=
-        match H hdr.chunkHashType got with
-        | none => -1
-        | some d =>
-          let d := if ch.compLen = 0 then zeros d.length else d
-          if truncated then -1 else if d = ch.digest then 1 else -1
+      let v : Int := scanValue H hdr ch got truncated
       let valid := setValid valid k v
       let allGood := allGood && decide (v = 1)
       if hdr.detached then (pos', full, valid, allGood) else scanLoop H f hdr useFull rest (k + 1) pos' full valid allGood
